@@ -1333,6 +1333,19 @@ namespace igris
 
     template <class InputIterator, class InputIterator2, class OutputIterator>
     OutputIterator
+    move(InputIterator first, InputIterator2 last, OutputIterator result)
+    {
+        while (first != last)
+        {
+            *result = igris::move(*first);
+            ++first;
+            ++result;
+        }
+        return result;
+    }
+
+    template <class InputIterator, class InputIterator2, class OutputIterator>
+    OutputIterator
     copy(InputIterator first, InputIterator2 last, OutputIterator result)
     {
         while (first != last)
@@ -1736,15 +1749,17 @@ namespace igris
             m_size = newend - m_data;
         }
 
-        void erase(iterator first, iterator last)
+        iterator erase(iterator first, iterator last)
         {
-            size_t sz = last - first;
-            for (size_t i = 0; i < sz; ++i)
-            {
-                igris::destructor(first + i);
-            }
-            igris::move(last, end(), first);
-            m_size -= sz;
+            if (first == last)
+                return first;
+
+            // Shift the tail down by assignment onto live elements, then
+            // destroy the moved-from elements left at the end.
+            iterator newend = igris::move(last, end(), first);
+            igris::array_destructor(newend, end());
+            m_size = newend - m_data;
+            return first;
         }
 
         // T &at(size_t num)
